@@ -77,13 +77,23 @@ def fam_SG(tier, **kw):
            [scen("S-G3/caps000", [ONE, THR, FOU], [0, 0, 0], 2, 6, clear_events=True, iter_destroy=[100], iter_destroy_max_n=2, key_kinds=[0, 3], **kw)]
 
 
+def fam_SAN(tier, **kw):
+    """Small explorations for the sanitizer builds (the sanitizer is an oracle on the enumerated executions, not a search)."""
+    if tier == "quick":
+        return [scen("S-A/cap1", [THR], [1], 2, 5, iter_destroy=[THR], iter_destroy_max_n=2, **kw), scen("S-B/caps01", [ONE, THR], [0, 1], 2, 4, iter_destroy=[100], iter_destroy_max_n=2, key_kinds=[0, 1, 3], **kw)]
+    return [scen("S-A/cap%d" % c, [THR], [c], 3, 7, iter_destroy=[THR], iter_destroy_max_n=3, **kw) for c in (0, 2)] + \
+           [scen("S-B/caps01", [ONE, THR], [0, 1], 2, 6, iter_destroy=[100, 102], iter_destroy_max_n=3, **kw),
+            scen("S-D/cap2", [THR], [2], 2, 6, max_clones=1, iter_destroy=[THR], iter_destroy_max_n=2, key_kinds=[0, 3], vias=["World"], **kw),
+            scen("S-F/cap2", [THR], [2], 2, 5, max_faults=1, iter_destroy=[THR], iter_destroy_max_n=2, key_kinds=[0, 1], vias=["World"], create_within=False, **kw)]
+
+
 def fam_SC32(tier, **kw):
     """The 17-, 24- and 32-column archetypes (feature 32_components, arities [1,2,3,4,17,24,32] -> indices 4,5,6)."""
     L, D = (2, 4) if tier == "quick" else (2, 6)
     return [scen("S-C32/arity%d" % ar, [idx], [1], L, D, iter_destroy=[idx], iter_destroy_max_n=2, key_kinds=[0, 1, 3], **kw) for idx, ar in ((4, 17), (5, 24), (6, 32))]
 
 
-FAMILIES = {"SC32": fam_SC32, "SA": fam_SA, "SB": fam_SB, "SC": fam_SC, "SD": fam_SD, "SE": fam_SE, "SF": fam_SF, "SG": fam_SG}
+FAMILIES = {"SC32": fam_SC32, "SAN": fam_SAN, "SA": fam_SA, "SB": fam_SB, "SC": fam_SC, "SD": fam_SD, "SE": fam_SE, "SF": fam_SF, "SG": fam_SG}
 
 
 def journal_candidates(jdir):
@@ -100,7 +110,10 @@ def journal_candidates(jdir):
     return out
 
 
-def replay_once(binary, scenario, history, known_path=KNOWN, timeout=120):
+REPLAY_ENV = {}
+
+
+def replay_once(binary, scenario, history, known_path=KNOWN, timeout=300):
     os.makedirs(os.path.join(WORK, "replay"), exist_ok=True)
     tag = hashlib.sha1((json.dumps(scenario, sort_keys=True) + json.dumps(history)).encode()).hexdigest()[:10] + "-%d" % os.getpid()
     sp = os.path.join(WORK, "replay", "sc-%s.json" % tag)
@@ -110,7 +123,9 @@ def replay_once(binary, scenario, history, known_path=KNOWN, timeout=120):
     cmd = [binary, "replay", "--scenario", sp, "--history", hp]
     if os.path.exists(known_path):
         cmd += ["--known", known_path]
-    rc, out, err = run(cmd, timeout=timeout)
+    env = env_base()
+    env.update(REPLAY_ENV)
+    rc, out, err = run(cmd, timeout=timeout, env=env)
     for p in (sp, hp):
         try:
             os.remove(p)
@@ -119,7 +134,7 @@ def replay_once(binary, scenario, history, known_path=KNOWN, timeout=120):
     return rc, out, err
 
 
-def run_leg(binary, scenario, config, threads=NCPU, dfs_check_depth=3, max_seconds=None, max_exec=None, mode="bfs"):
+def run_leg(binary, scenario, config, threads=NCPU, dfs_check_depth=3, max_seconds=None, max_exec=None, mode="pbfs", env_extra=None):
     """One exploration. Returns a dict with stats, counters, violations (each confirmed by a double replay)."""
     name = scenario["name"].replace("/", "_")
     tag = "%s.%s.%d" % (name, hashlib.sha1((config + json.dumps(scenario, sort_keys=True)).encode()).hexdigest()[:8], os.getpid())
@@ -136,7 +151,9 @@ def run_leg(binary, scenario, config, threads=NCPU, dfs_check_depth=3, max_secon
     if max_exec:
         cmd += ["--max-executions", str(max_exec)]
     t0 = time.time()
-    rc, out, err = run(cmd, timeout=(max_seconds or 3600) * 3 + 600)
+    env = env_base()
+    env.update(env_extra or {})
+    rc, out, err = run(cmd, timeout=(max_seconds or 3600) * 3 + 600, env=env)
     wall = time.time() - t0
     res = {"scenario": scenario, "config": config, "wall_s": wall, "violations": [], "crashed": False}
     if rc != 0 or not os.path.exists(op):
@@ -149,7 +166,9 @@ def run_leg(binary, scenario, config, threads=NCPU, dfs_check_depth=3, max_secon
             r1 = replay_once(binary, scenario, h)
             r2 = replay_once(binary, scenario, h)
             if r1[0] not in (0, 1) and r2[0] not in (0, 1):
-                crashing.append((h, r1[0], (r1[2] or "")[-600:]))
+                tail = r1[2] or ""
+                k = tail.find("ERROR: AddressSanitizer")
+                crashing.append((h, r1[0], tail[k:k + 900] if k >= 0 else tail[-600:]))
             elif r1[0] == 1 and r2[0] == 1:
                 # an ordinary violation that was about to be reported when another thread crashed
                 try:
@@ -158,7 +177,9 @@ def run_leg(binary, scenario, config, threads=NCPU, dfs_check_depth=3, max_secon
                 except Exception:
                     pass
         if not crashing and not res["violations"]:
-            raise MachineryError("hx leg %s [%s] exited with rc=%s and no journalled history reproduces it\nstderr tail: %s" % (scenario["name"], config, rc, (err or "")[-800:]))
+            # the process died but no journalled history kills it in isolation: not a verdict (the caller turns this into a
+            # machinery failure unless other legs produced confirmed violations)
+            res.setdefault("unconfirmed", []).append("hx leg %s [%s] died with rc=%s and no journalled history reproduces it in isolation; stderr tail: %s" % (scenario["name"], config, rc, (err or "")[-300:]))
         crashing.sort(key=lambda x: len(x[0]))
         for h, code, tail in crashing[:3]:
             res["violations"].append({"prop": "CRASH", "oracle": "process-crash:rc=%s" % code, "msg": "the process died (rc=%s) while executing this history, twice in isolation. stderr tail: %s" % (code, tail), "history": h, "phase": "crash", "confirmed": True})
@@ -181,7 +202,10 @@ def run_leg(binary, scenario, config, threads=NCPU, dfs_check_depth=3, max_secon
         elif r1[0] not in (0, 1):
             reproduced = same  # crashes when replayed single-threaded: still a deterministic failure
         if not (same and reproduced):
-            raise MachineryError("violation %s/%s in %s does not replay deterministically (rc %s/%s)" % (v["prop"], v["oracle"], scenario["name"], r1[0], r2[0]))
+            # Not reported as a verdict: the same history must fail the same way every time. (Typical cause: the subject read
+            # memory it does not own, whose content differs between runs; the sanitizer legs turn that into a deterministic crash.)
+            res.setdefault("unconfirmed", []).append("%s/%s in %s does not replay deterministically (rc %s/%s), history %s" % (v["prop"], v["oracle"], scenario["name"], r1[0], r2[0], json.dumps(v["history"])))
+            continue
         res["violations"].append(dict(v, confirmed=True))
     cc = o.get("dfs_crosscheck")
     if cc and not (cc["keys_equal"] and cc["verdicts_equal"]):
